@@ -45,9 +45,22 @@ def session_cases():
 CHECKS = {"Session.setup": (session_cases, check_session_setup)}
 
 
+def _known_witness_keys():
+    """witnesses recorded as known findings (committed file, read only): a general sweep steps over exactly these inputs;
+    the task that owns the finding still replays and reports it (KNOWN-FINDING line)"""
+    import json, os
+    try:
+        d = json.load(open(os.path.join(os.path.dirname(os.path.dirname(os.path.abspath(__file__))), "known_findings.json")))
+        return {f.get("witness_key") for f in d.get("findings", []) if f.get("status") == "known" and f.get("witness_key")}
+    except Exception:      # noqa
+        return set()
+
+
 def search(seed, tier, obligation, hints):
     fn = obligation.split("/")[0]
     cases = 0
+    sweep = fn not in CHECKS
+    known = _known_witness_keys() if sweep else set()
     for name, (gen, chk) in CHECKS.items():
         if fn in CHECKS and name != fn:
             continue
@@ -56,6 +69,8 @@ def search(seed, tier, obligation, hints):
             why = chk(cfg)
             if why:
                 key = f"{name}|expon draw 0.0" if (name == "JsonRandom.random" and "expon" in str(cfg.get("spec")) and cfg.get("u") == 0.0) else f"{name}|{why.split('=')[0].strip()}"
+                if key in known:
+                    continue
                 return {"found": True, "input": {"function": name, "cfg": cfg}, "observed": {"function": name, "clause": why}, "witness_key": key, "cases": cases}
     return {"found": False, "cases": cases}
 
